@@ -146,6 +146,8 @@ class Frame(object):
         self.fi = fi
         self.module = fi.module
         self.limports = local_imports_of(fi)
+        if getattr(fi, "outer_imports", None):
+            self.limports = dict(fi.outer_imports, **self.limports)      # a local function sees the imports of the function it is defined in
         self.state = state
         self.interp = interp
         self.self_obj = None
@@ -319,8 +321,35 @@ class Interp(object):
     st_Nonlocal = st_Import
 
     def st_FunctionDef(self, st, fr):
-        fr.state.env[st.name] = AV(kind=K_FUNC, ref=("opaque", st.name))
+        fr.state.env[st.name] = self.local_function(st, fr)
         return Flow(fr.state)
+
+    def local_function(self, node, fr):
+        """A function defined inside a function (def or lambda): called like any other, its free variables read from the defining frame
+        as it is at the time of the call (late binding).  Generators, decorated functions and functions that rebind outer names stay
+        opaque."""
+        name = getattr(node, "name", "<lambda>")
+        if isinstance(node, ast.Lambda):
+            fnode = ast.FunctionDef(name="<lambda>", args=node.args, body=[ast.Return(value=node.body)], decorator_list=[], returns=None,
+                                    type_comment=None, type_params=[])
+            ast.copy_location(fnode, node)
+            ast.fix_missing_locations(fnode)
+        else:
+            fnode = node
+        if getattr(fnode, "decorator_list", None) or any(isinstance(n, (ast.Yield, ast.YieldFrom, ast.Nonlocal, ast.Global)) for n in ast.walk(fnode)):
+            return AV(kind=K_FUNC, ref=("opaque", name))
+        from .program import FunctionInfo
+        fi2 = FunctionInfo("%s.<locals>.%s@%s" % (fr.fi.qualname, name, getattr(node, "lineno", "?")), fnode, fr.fi.module)
+        define_fr = fr
+        fi2.outer_imports = dict(fr.limports or {})
+
+        def run(I, call_fr, args, kwargs, cnode):
+            bound = I.bind(fi2, args, kwargs, call_fr, cnode)
+            env = dict(define_fr.state.env) if define_fr.state is not None else {}
+            env.update(bound)
+            ret, _, _ = I.call_function(fi2, env, call_fr.state, call_fr, cnode)
+            return ret
+        return AV(kind=K_FUNC, ref=("closure", run))
 
     def st_Assert(self, st, fr):
         v = self.ev(st.test, fr)
@@ -947,6 +976,11 @@ class Interp(object):
             elif idx.kind == K_SCALAR and idx.has_const() and idx.const == 0 and v.has_const() and isinstance(v.const, (int, float)) and \
                     not isinstance(v.const, bool):
                 ap = ("ap", arr.parts[1], v.const, arr.parts[3])             # x[0] = c
+            elif idx.kind == K_SLICE and idx.items is not None and idx.items[2] is None and \
+                    (idx.items[0] is None or (idx.items[0].has_const() and idx.items[0].const == 0)) and idx.items[1] is not None and \
+                    idx.items[1].has_const() and idx.items[1].const == 1 and not isinstance(idx.items[1].const, bool) and v.shape == () and \
+                    v.has_const() and isinstance(v.const, (int, float)) and not isinstance(v.const, bool):
+                ap = ("ap", arr.parts[1], v.const, arr.parts[3])             # x[:1] = c  (the same element)
         if ap is None and isinstance(arr.parts, tuple) and arr.parts and arr.parts[0] == "pconst" and idx is not None:
             ap = pconst_store()
         # an uninitialised 1-D buffer filled piece by piece: x[0] = a; x[1:-1] = middle; x[-1] = b  (each region once, nothing else) is
@@ -1213,7 +1247,7 @@ class Interp(object):
         return AV(kind=K_STR)
 
     def ex_Lambda(self, e, fr):
-        return AV(kind=K_FUNC, ref=("opaque", "lambda"))
+        return self.local_function(e, fr)
 
     def ex_Starred(self, e, fr):
         return self.ev(e.value, fr)
